@@ -254,6 +254,17 @@ def _rebuild(expr, flow, keep, depth):
         return _rebuild(v, flow, keep, depth + 1)
     if not isinstance(expr, ast.AST):
         return expr
+    # D['key'] / T[2] where D / T is bound once to a dict / tuple literal that is not changed in place: that element
+    if isinstance(expr, ast.Subscript) and isinstance(expr.value, ast.Name) and isinstance(expr.ctx, ast.Load) \
+            and isinstance(expr.slice, ast.Constant) and expr.value.id not in keep and depth <= 12:
+        dv = flow.def_value(expr.value)
+        if isinstance(dv, ast.Dict):
+            for k_, v_ in zip(dv.keys, dv.values):
+                if isinstance(k_, ast.Constant) and k_.value == expr.slice.value and type(k_.value) is type(expr.slice.value):
+                    return _rebuild(v_, flow, keep, depth + 1)
+        elif isinstance(dv, ast.Tuple) and isinstance(expr.slice.value, int) and not isinstance(expr.slice.value, bool) \
+                and -len(dv.elts) <= expr.slice.value < len(dv.elts) and not any(isinstance(e, ast.Starred) for e in dv.elts):
+            return _rebuild(dv.elts[expr.slice.value], flow, keep, depth + 1)
     new = type(expr)()
     for field, val in ast.iter_fields(expr):
         if isinstance(val, list):
